@@ -96,8 +96,12 @@ impl S3 for FileSystem {
 
         // copying a file onto itself would truncate it before it is read
         let same_object = src_path == dst_path;
+        // the copy replaces the destination in one step, like an upload does
         if same_object.not() {
-            let _ = try_!(fs::copy(&src_path, &dst_path).await);
+            let mut src_file = try_!(fs::File::open(&src_path).await);
+            let mut file_writer = self.prepare_file_write(&dst_path)?;
+            let _ = try_!(tokio::io::copy(&mut src_file, file_writer.writer()).await);
+            file_writer.done().await?;
         }
 
         debug!(from = %src_path.display(), to = %dst_path.display(), "copy file");
